@@ -157,6 +157,8 @@ def build(x):
     nx.sub('V-ITER', r'for e in self\.endpoints\.iter_mut\(\) \{', 'let mut __g: usize = 0; while __g < self.endpoints.len() { let e = &self.endpoints[__g]; __g += 1;', detail='`for e in v.iter_mut() {` -> while loop with index and a SHARED borrow (the body does not mutate e; if it did, the generated file would not compile -> undecided)', must=True)
     nx.sub('V-ITER', r'for \(_, batcher\) in self\.senders\.iter_mut\(\) \{', 'let mut __k: usize = 0; while __k < self.senders.len() { let batcher = &mut self.senders[__k].1; __k += 1;', detail='`for (_, b) in v.iter_mut() {` -> while loop', must=True)
     nx.sub('V-ITER', r'for \(_, batcher\) in self\.senders\.drain\(\.\.\) \{', 'while self.senders.len() > 0 { let (_, batcher) = self.senders.remove(0);', detail='`for (_, b) in v.drain(..) {` -> pop-front loop', must=True)
+    nx.bind('sent', r'let mut (\w+)(?:\s*:\s*bool)? = false;')
+    nx.bind('index', r'let (\w+)(?:\s*:\s*usize)? = self\.next_strategy\.index\(')
     nx.name_result('r')
     nx.add_spec(NEXT_SPEC)
     nx.insert_after('let message = self.prev.next();', '''
@@ -186,16 +188,16 @@ def build(x):
                         ''')
     nx.add_loop_spec(3, r'''
                     invariant_except_break
-                        !sent, message == gm, old(self).first_match(*item, __g as int) is None,
+                        !@{sent}, message == gm, old(self).first_match(*item, __g as int) is None,
                         forall|i: int| 0 <= i < old(self).senders@.len() ==> (#[trigger] self.senders@[i]).1.all() == old(self).senders@[i].1.all(),
                     invariant
-                        __g <= self.endpoints@.len(), self.same_wiring(old(self)), self.prev == prev1, old(self).inv(), index == 0,
+                        __g <= self.endpoints@.len(), self.same_wiring(old(self)), self.prev == prev1, old(self).inv(), @{index} == 0,
                         se_data(gm) == Some(*item),
                     ensures
                         forall|i: int| 0 <= i < old(self).senders@.len() ==> (#[trigger] self.senders@[i]).1.all() == Self::routed(old(self), i, gm),
                     decreases self.endpoints@.len() - __g,
 ''')
-    nx.insert_before(re.compile(r'let sender_idx = e\.block_senders\.indexes\[index\];'), '''proof {
+    nx.insert_before(re.compile(r'let sender_idx = e\.block_senders\.indexes\[%s\];' % re.escape(nx.names['index'])), '''proof {
                             assert(old(self).group(__g - 1).len() > 0);
                             assert(old(self).first_match(*item, __g as int) == Some(__g - 1));
                             old(self).lemma_first_match_stable(*item, __g as int, old(self).n_eps());
